@@ -123,3 +123,128 @@ Definition read_then_write (chunks : list bytes) (old : bytes) : option bytes :=
   | None => None
   | Some lb => Some (save_file (ln lb) 0 (length (ln lb)) old)
   end.
+
+(* ================================================================== C03: saving under faults *)
+(* One outcome per open/write/close system call on the target, in program order.  When the
+   schedule is exhausted every further call succeeds in full.  OShort k: a write that accepts only
+   k bytes (k is clipped to the size asked for; for open/close it means success). *)
+Inductive outcome := OOk | OErr | OShort (k : nat).
+
+(* write_fully(fd, buf, sz): returns the bytes that reached the file, nc >= 0, the unused schedule *)
+Fixpoint write_fully (p : bytes) (sch : list outcome) {struct sch} : bytes * bool * list outcome :=
+  match p with
+  | [] => ([], true, sch)                                   (* while (nw < sz ...: not entered *)
+  | _ :: _ =>
+    match sch with
+    | [] => (p, true, [])
+    | OOk :: s => (p, true, s)
+    | OErr :: s => ([], false, s)                           (* nc < 0: return -1 *)
+    | OShort k :: s =>
+      let k' := Nat.min k (length p) in
+      let '(w, ok, r) := write_fully (skipn k' p) s in (firstn k' p ++ w, ok, r)
+    end
+  end.
+(* the write_fully calls of lbuf_wr, in order; stops at the first failure (return 1) *)
+Fixpoint write_all (ps : list bytes) (sch : list outcome) : bytes * bool * list outcome :=
+  match ps with
+  | [] => ([], true, sch)
+  | p :: ps' =>
+    let '(w, ok, r) := write_fully p sch in
+    if ok then let '(w2, ok2, r2) := write_all ps' r in (w ++ w2, ok2, r2) else (w, false, r)
+  end.
+
+(* the file system: path -> (content, mtime); an absent file has mtime -1 *)
+Definition file := (bytes * Z)%type.
+Definition fsys := list (nat * file).
+Fixpoint fs_get (fs : fsys) (p : nat) : option file :=
+  match fs with [] => None | (q, f) :: r => if Nat.eqb q p then Some f else fs_get r p end.
+Definition fs_set (fs : fsys) (p : nat) (f : file) : fsys := (p, f) :: fs.
+Definition fs_mtime (fs : fsys) (p : nat) : Z := match fs_get fs p with Some (_, m) => m | None => (-1)%Z end.
+Definition fs_content (fs : fsys) (p : nat) : option bytes := match fs_get fs p with Some (c, _) => Some c | None => None end.
+
+Inductive status := SOk | SRefused | SFailed.
+(* bytes d written from offset 0 over old *)
+Definition overwrite (old d : bytes) : bytes := d ++ skipn (length d) old.
+
+(* lbuf_save after a successful open(O_WRONLY | O_CREAT): lbuf_wr, close.  now = the time stamp a modified file gets *)
+Definition save_opened (now : Z) (lines : list bytes) (b e : nat) (path : nat) (fs : fsys) (s : list outcome)
+  : status * fsys * list outcome :=
+  let old := match fs_content fs path with Some c => c | None => [] end in
+  let fs0 := match fs_get fs path with Some _ => fs | None => fs_set fs path ([], now) end in   (* O_CREAT *)
+  let w := lbuf_wr lines b e in
+  let '(d, ok, r) := write_all (outp w) s in
+  if ok then
+    let fs1 := fs_set fs0 path (ftrunc (wsz w) (overwrite old d), now) in
+    match r with
+    | OErr :: r' => (SFailed, fs1, r')                                (* close() != 0; the second close is on a dead fd *)
+    | _ => (SOk, fs1, tl r)
+    end
+  else
+    (* lbuf_wr returned 1: no ftruncate; close(fd) in the error branch, result ignored *)
+    (SFailed, (match d with [] => fs0 | _ => fs_set fs0 path (overwrite old d, now) end), tl r).
+(* the guards of lbuf_save; `mtime > 0` in the C text tests the function mtime, i.e. is always true *)
+Definition refuses (force : bool) (ts m : Z) : bool :=
+  negb force && ((m >? ts)%Z                          (* "file changed" *)
+                 || ((ts <=? 0)%Z && (m >=? 0)%Z)).   (* "file exists" *)
+(* lbuf_save(lb, beg, end, path, force, ts) *)
+Definition lbuf_save (now : Z) (lines : list bytes) (b e : nat) (path : nat) (force : bool) (ts : Z)
+                     (fs : fsys) (sch : list outcome) : status * fsys * list outcome :=
+  if refuses force ts (fs_mtime fs path) then (SRefused, fs, sch)
+  else
+    match sch with
+    | OErr :: s => (SFailed, fs, s)                                      (* open() < 0: "cannot create file" *)
+    | _ => save_opened now lines b e path fs (tl sch)
+    end.
+
+(* one entry of bufs[] *)
+Record buf := { b_lines : list bytes; b_path : nat; b_mtime : Z; b_dirty : bool }.
+
+(* ec_write for `:b,e w[!] path`, `:w`, and the write part of wq / x:
+   whole = no address given; isx = the command starts with x *)
+Definition ec_write (now : Z) (isx force : bool) (rng : option (nat * nat)) (path : nat) (bf : buf)
+                    (fs : fsys) (sch : list outcome) : status * buf * fsys * list outcome :=
+  if isx && negb (b_dirty bf) then (SOk, bf, fs, sch)
+  else
+    let n := length (b_lines bf) in
+    let '(b, e) := match rng with Some r => r | None => (0, n) end in
+    let own := Nat.eqb (b_path bf) path in
+    let ts := if own then b_mtime bf else 0%Z in
+    let '(st, fs', r) := lbuf_save now (b_lines bf) b e path force ts fs sch in
+    match st with
+    | SOk =>
+      let bf' := if own
+                 then {| b_lines := b_lines bf; b_path := b_path bf; b_mtime := fs_mtime fs' path;
+                         b_dirty := negb (Nat.eqb b 0 && Nat.eqb e n) |}      (* lbuf_saved / lbuf_unsaved *)
+                 else bf in
+      (SOk, bf', fs', r)
+    | _ => (st, bf, fs', r) end.
+
+(* the loop of ec_quit over bufs[]: returns quit?, status shown, file system, unused schedule *)
+Fixpoint quit_loop (now : Z) (all bang : bool) (bufs : list buf) (fs : fsys) (sch : list outcome)
+  : bool * status * fsys * list outcome :=
+  match bufs with
+  | [] => (true, SOk, fs, sch)
+  | bf :: rest =>
+    if negb all && negb bang && b_dirty bf then (false, SRefused, fs, sch)         (* "buffer modified" *)
+    else if all then
+      let '(st, fs', r) := lbuf_save now (b_lines bf) 0 (length (b_lines bf)) (b_path bf) bang (b_mtime bf) fs sch in
+      match st with
+      | SOk => quit_loop now all bang rest fs' r
+      | _ => (false, st, fs', r)
+      end
+    else quit_loop now all bang rest fs sch
+  end.
+(* ec_quit for q, q!, wq, wq!, x, x!, xa, xa!  (wr = cmd[0] is w or x) *)
+Definition ec_quit (now : Z) (wr isx all bang : bool) (bufs : list buf) (fs : fsys) (sch : list outcome)
+  : bool * status * list buf * fsys * list outcome :=
+  match bufs with
+  | [] => (true, SOk, bufs, fs, sch)
+  | b0 :: rest =>
+    if wr then
+      let '(st, b0', fs', r) := ec_write now isx bang None (b_path b0) b0 fs sch in
+      match st with
+      | SOk => let '(q, st2, fs2, r2) := quit_loop now all bang (b0' :: rest) fs' r in (q, st2, b0' :: rest, fs2, r2)
+      | _ => (false, st, bufs, fs', r)
+      end
+    else let '(q, st2, fs2, r2) := quit_loop now all bang bufs fs sch in (q, st2, bufs, fs2, r2)
+  end.
